@@ -191,3 +191,33 @@ V("Kronecker delta built in place from the cached epsilon", "C05", BASE, "      
 V("cache key widened silently", "C05", BASE, "            array[tuple(indices)] = np.prod(diff, axis=0)\n", "            array[tuple(indices)] = np.prod(diff, axis=0) * (1 if covariant else -1)\n", "E1.cache", "LeviCivitaTensor.__init__")
 V("twin: cache fill with renamed local", "C05", BASE, "            array = np.zeros(size * [size], dtype=np.int8)\n            array[tuple(indices)] = np.prod(diff, axis=0)\n\n            self._cache[size] = array",
   "            eps = np.zeros(size * [size], dtype=np.int8)\n            eps[tuple(indices)] = np.prod(diff, axis=0)\n            array = eps\n\n            self._cache[size] = array", "silent")
+
+# ------------------------------------------------------------------------------------------------ E5: C03
+V("D6 regression: Triangle.contains on raw coordinates", "C03", SHAPES, "np.broadcast_arrays(*self.normalized_array, other.normalized_array)", "np.broadcast_arrays(*self.array, other.array)", "E5.order", "Triangle.contains", quick=True)
+V("D11 regression: raw y comparison of edge endpoints", "C03", SHAPES, "        v1 = edges.normalized_array[..., 0, :]\n        v2 = edges.normalized_array[..., 1, :]", "        v1 = edges.array[..., 0, :]\n        v2 = edges.array[..., 1, :]", "E5.order", "PolygonTensor.contains")
+V("Triangle.contains: only the query point is raw", "C03", SHAPES, "np.broadcast_arrays(*self.normalized_array, other.normalized_array)", "np.broadcast_arrays(*self.normalized_array, other.array)", "E5.order", "Triangle.contains")
+V("segment membership: interval test on a linear quantity", "C03", SHAPES, "        x = z_r * w_r + z_i * w_i\n", "        x = z_r + z_i\n", "E5.order", "SegmentTensor.contains")
+V("_point_dist: one bracket dropped from the denominator", "C03", OPS, "        return 4 * np.abs(np.sqrt(pqi * pqj) / (pij * qij))", "        return 4 * np.abs(np.sqrt(pqi * pqj) / pij)", "E5.ret", "_point_dist")
+V("Simplex.volume without normalisation", "C03", SHAPES, "        points = self._normalize_array(points)\n        n, k = points.shape", "        n, k = points.shape", "E5.ret", "Simplex.volume")
+V("Sphere.radius without the division by the leading entry", "C03", CURVE, "        c = self.array[:-1, -1] / self.array[0, 0]\n        return np.sqrt(c.dot(c) - self.array[-1, -1] / self.array[0, 0])", "        c = self.array[:-1, -1]\n        return np.sqrt(c.dot(c) - self.array[-1, -1])", "missed")
+V("isinf compares the raw last coordinate with 1", "C03", POINT, "        return np.isclose(self.array[..., -1], 0, atol=EQ_TOL_ABS)\n\n    @property\n    def isreal", "        return ~np.isclose(self.array[..., -1], 1, atol=EQ_TOL_ABS)\n\n    @property\n    def isreal", "E5.eq", "PointTensor.isinf")
+V("projective == replaced by coordinate equality", "C03", BASE, "            is_multi = is_multiple(self.array, other.array, axis=axes, rtol=EQ_TOL_REL, atol=EQ_TOL_ABS)\n            return bool(np.all(is_multi))", "            return bool(np.allclose(self.array, other.array, rtol=EQ_TOL_REL, atol=EQ_TOL_ABS))", "E5.eqdunder", "Point")
+V("twin: manual normalisation", "C03", SHAPES, "np.broadcast_arrays(*self.normalized_array, other.normalized_array)", "np.broadcast_arrays(*self._normalize_array(self.array), other._normalize_array(other.array))", "silent")
+V("twin: bracket extracted into a helper", "C03", OPS, "    pqi = det(np.stack([p, q, i], axis=-2))\n", "    pqi = _bracket(p, q, i)\n", "silent",
+  extra=[(OPS, "def _point_dist(p: PointTensor, q: PointTensor) -> npt.NDArray[np.float64]:", "def _bracket(a: np.ndarray, b: np.ndarray, c: np.ndarray) -> np.ndarray:\n    return det(np.stack([a, b, c], axis=-2))\n\n\ndef _point_dist(p: PointTensor, q: PointTensor) -> npt.NDArray[np.float64]:")])
+V("twin: renamed locals in the segment test", "C03", SHAPES, "        x = z_r * w_r + z_i * w_i\n        y = w_r**2 + w_i**2\n        x_zero = np.isclose(x, 0, atol=EQ_TOL_ABS)\n        y_zero = np.isclose(y, 0, atol=EQ_TOL_ABS)\n        return result & (~x_zero | ~y_zero) & (0 <= x + tol) & (x <= y + tol)",
+  "        num = z_r * w_r + z_i * w_i\n        den = w_r**2 + w_i**2\n        num_zero = np.isclose(num, 0, atol=EQ_TOL_ABS)\n        den_zero = np.isclose(den, 0, atol=EQ_TOL_ABS)\n        return result & (~num_zero | ~den_zero) & (0 <= num + tol) & (num <= den + tol)", "silent")
+
+# ------------------------------------------------------------------------------------------------ E5: C17
+V("D5 regression: center as a sum", "C17", SHAPES, "        return Point(*np.mean(self.normalized_array[:, :-1], axis=0))", "        return Point(*np.sum(self.normalized_array[:, :-1], axis=0))", "E5.affine", "RegularPolygon.center", quick=True)
+V("centroid: triangle centroids as sums", "C17", SHAPES, "np.average(points[[0, i, i + 1], :-1], axis=0) for i in", "np.sum(points[[0, i, i + 1], :-1], axis=0) for i in", "E5.affine", "Polygon.centroid")
+V("area from raw projected coordinates", "C17", SHAPES, "        return self._normalize_array(points)\n\n    @property\n    def area", "        return points\n\n    @property\n    def area", "missed")
+V("Simplex.volume without normalisation (C17)", "C17", SHAPES, "        points = self._normalize_array(points)\n        n, k = points.shape", "        n, k = points.shape", "E5.ret", "Simplex.volume")
+V("twin: mean written as sum / N", "C17", SHAPES, "        return Point(*np.mean(self.normalized_array[:, :-1], axis=0))", "        return Point(*np.average(self.normalized_array[:, :-1], axis=0))", "silent")
+
+# ------------------------------------------------------------------------------------------------ E5: C09 / C11
+V("_point_dist unbalanced (C09)", "C09", OPS, "        return 4 * np.abs(np.sqrt(pqi * pqj) / (pij * qij))", "        return 4 * np.abs(np.sqrt(pqi * pqj) / (pij * pij))", "E5.ret", "_point_dist")
+V("_point_dist without abs (C09)", "C09", OPS, "        return 4 * np.abs(np.sqrt(pqi * pqj) / (pij * qij))", "        return 4 * np.real(np.sqrt(pqi * pqj) / (pij * qij))", "E5.ret", "_point_dist")
+V("crossratio with an unbalanced bracket monomial", "C11", OPS, "        return ac * bd / (ad * bc)", "        return ac * bd / (ad * bd)", "E5.ret", "crossratio")
+V("crossratio drops a bracket", "C11", OPS, "        return ac * bd / (ad * bc)", "        return ac * bd / ad", "E5.ret", "crossratio")
+V("twin: crossratio quotient regrouped", "C11", OPS, "        return ac * bd / (ad * bc)", "        return (ac / ad) * (bd / bc)", "silent")
